@@ -65,6 +65,11 @@ def search(ctx, N):
             kind = 5
         x = gen_nodes(rng, m, kind)
         x0 = float(rng.normal()) if t % 3 else float(x[rng.integers(0, m)])
+        if t % 6 == 5 and kind != 5:
+            # the same node shapes on a tiny length scale (1e-12 .. 1e-20): distinct nodes are distinct at any scale
+            sc = float(10.0 ** rng.integers(-20, -11))
+            x = x * sc
+            x0 = x0 * sc
         if t % 5 == 4:
             # an expansion point far outside the node range (1e3 .. 1e9 range-widths away): the weights are large but just as well determined
             x0 = float(np.mean(x) + float(rng.choice([1e3, 1e6, 1e9])) * (float(np.max(x) - np.min(x)) or 1.0) * float(rng.choice([-1, 1])) * float(rng.uniform(1, 2)))
